@@ -60,25 +60,27 @@ Proof. exact wg_examples. Qed.
 Print Assumptions C15_hypotheses_satisfiable.
 
 (* greenback, extraction from inside the task, j greenlets below its sync code, for EVERY number n
-   of async/sync alternations: the visible frames are exactly the user's call stack -- through
-   each await_ bridge down to the caller's own frames -- and every bridging frame is hidden *)
-Theorem C15_greenback_n_inside : forall n j,
-  exists l, gb_extract {| sc_inside := true; sc_n := n; sc_j := j |} = GOk l
+   of async/sync alternations, whichever level (if any) was last resumed by throw() and under
+   either event loop: the visible frames are exactly the user's call stack -- through each await_
+   bridge down to the caller's own frames -- and every bridging frame is hidden *)
+Theorem C15_greenback_n_inside : forall n j err aio,
+  exists l, gb_extract {| sc_inside := true; sc_n := n; sc_j := j; sc_err := err; sc_aio := aio |} = GOk l
             /\ visible l = FShimCoro :: FTarget :: ulog n ++ [FA 0; FLeaf] ++ repeat FNested (S j) ++ [FProbe]
             /\ (forall k h, In (k, h) l -> bridging k = true -> h = true).
 Proof. exact greenback_inside. Qed.
 Print Assumptions C15_greenback_n_inside.
 
 (* the same from outside the task (parked in a regular await at level 0) *)
-Theorem C15_greenback_n_outside : forall n,
-  exists l, gb_extract {| sc_inside := false; sc_n := n; sc_j := 0 |} = GOk l
+Theorem C15_greenback_n_outside : forall n err aio,
+  exists l, gb_extract {| sc_inside := false; sc_n := n; sc_j := 0; sc_err := err; sc_aio := aio |} = GOk l
             /\ visible l = FShimCoro :: FTarget :: ulog n ++ [FA 0; FWait]
             /\ (forall k h, In (k, h) l -> bridging k = true -> h = true).
 Proof. exact greenback_outside. Qed.
 Print Assumptions C15_greenback_n_outside.
 
 Theorem C15_greenback_example :
-  visible (match gb_extract {| sc_inside := true; sc_n := 2; sc_j := 1 |} with GOk l => l | _ => [] end)
+  visible (match gb_extract {| sc_inside := true; sc_n := 2; sc_j := 1; sc_err := Some 1; sc_aio := true |}
+           with GOk l => l | _ => [] end)
   = [FShimCoro; FTarget; FA 2; FS 2; FA 1; FS 1; FA 0; FLeaf; FNested; FNested; FProbe].
 Proof. exact greenback_example. Qed.
 Print Assumptions C15_greenback_example.
@@ -86,8 +88,10 @@ Print Assumptions C15_greenback_example.
 (* composition with the general extract_iter model of C10: tabulating the greenback hooks'
    decisions for a scenario (gb_cfg) and running M_Frames.extract on that table yields exactly the
    frames and hide flags of gb_extract, no leaf, no error -- for every scenario with n <= 6
-   alternations and j <= 3 nested greenlets, inside and outside (finite sweep, bound as stated) *)
-Theorem C15_greenback_composes_with_extract_iter : forall inside n j,
-  n <= 6 -> j <= 3 -> compose_ok {| sc_inside := inside; sc_n := n; sc_j := j |} = true.
+   alternations, j <= 3 nested greenlets, any throw()-resumed level <= 6, inside and outside, trio
+   and asyncio (finite sweep, bound as stated) *)
+Theorem C15_greenback_composes_with_extract_iter : forall inside aio n j err,
+  n <= 6 -> j <= 3 -> (forall m, err = Some m -> m <= 6) ->
+  compose_ok {| sc_inside := inside; sc_n := n; sc_j := j; sc_err := err; sc_aio := aio |} = true.
 Proof. exact greenback_composes. Qed.
 Print Assumptions C15_greenback_composes_with_extract_iter.
